@@ -49,6 +49,9 @@ Inductive ty :=
 | TUnion (r : urepr) (ms : list (minfo * ty))
 | TEnum (int_repr : bool) (es : list einfo).
 
+(* the two levels a typed node can be read or built at *)
+Inductive level := LType | LRepr.
+
 (* a slot that may be absent (optional struct field), null (nullable) or hold a value *)
 Inductive maybe (A : Type) := MAbsent | MNull | MVal (a : A).
 Arguments MAbsent {A}.
